@@ -46,7 +46,12 @@ func NewGitLabProvider(p *ProviderData, opts options.Provider) (*GitLabProvider,
 		OIDCProvider:    oidcProvider,
 		oidcRefreshFunc: oidcProvider.RefreshSession,
 	}
-	provider.setAllowedGroups(opts.GitLabConfig.Group)
+	// Backwards compatibility with the `--gitlab-group` option. Only replace
+	// the generic allowed groups when GitLab groups are configured, an empty
+	// list would lift the `--allowed-group` restriction altogether.
+	if len(opts.GitLabConfig.Group) > 0 {
+		provider.setAllowedGroups(opts.GitLabConfig.Group)
+	}
 
 	if err := provider.setAllowedProjects(opts.GitLabConfig.Projects); err != nil {
 		return nil, fmt.Errorf("could not configure allowed projects: %v", err)
@@ -58,6 +63,9 @@ func NewGitLabProvider(p *ProviderData, opts options.Provider) (*GitLabProvider,
 // setAllowedProjects adds Gitlab projects to the AllowedGroups list
 // and tracks them to do a project API lookup during `EnrichSession`.
 func (p *GitLabProvider) setAllowedProjects(projects []string) error {
+	if p.AllowedGroups == nil {
+		p.AllowedGroups = make(map[string]struct{})
+	}
 	for _, project := range projects {
 		gp, err := newGitlabProject(project)
 		if err != nil {
